@@ -234,6 +234,25 @@ extern "C" void vp_main() {
   vp_assume(buffered <= ENV_MAXCHUNK);
   for (uint8_t i = 0; i < ENV_MAXCHUNK; i++) tr->m_buf[i] = vp_nondet_u8();
   tr->m_len = buffered;
+#ifdef ARBCASE
+  // the arbitration step is decided in three cases that together cover every read outcome: 0 = the address comes back
+  // (won), 1 = another symbol comes back (lost), 2 = nothing is read (timeout / device error)
+  {
+    uint8_t next = vp_nondet_u8();   // the next symbol the wire delivers, whether already buffered or read fresh
+    tr->m_forced = true; tr->m_forcedByte = next;
+    if (buffered >= 1) vp_assume(tr->m_buf[0] == next);
+#if ARBCASE == 0
+    vp_assume(next == r.M[0]);
+    tr->m_allowErrors = false; tr->m_noTimeout = true;
+#elif ARBCASE == 1
+    vp_assume(next != r.M[0]);
+    tr->m_allowErrors = false; tr->m_noTimeout = true;
+#else
+    vp_assume(buffered == 0);
+    tr->m_bytesLeft = 0;   // every read times out or fails
+#endif
+  }
+#endif
   Stepper st(&h);
   // an own exchange always starts its step with handleSend: the previous receive of a sending step never leaves the
   // step loop with "more buffered" unprocessed -- except that run() keeps receiving while data is buffered; both cases:
@@ -324,32 +343,40 @@ extern "C" void vp_main() {
   {
     unsigned inNext = countIn(h.m_nextRequests, req0), inFin = countIn(h.m_finishedRequests, req0);
     bool cur = h.m_currentRequest == req0;
-    bool retry = false;
-    if (wasArb && (r.lost)) {
-      // lost arbitration (other address echoed, or device error cancelled it): retried without notification while retries remain
-      retry = retriesBefore < cfg.busLostRetries;
+    bool noSignal = h.m_state == bs_noSignal;
+    bool devError = tr->m_nrderr != 0;
+    uint8_t cnt = g_notifyCount[0];
+    // (1) conservation: the request is in exactly one place, never in two, deleted at most once
+    unsigned places = (cur ? 1u : 0u) + inNext + inFin + g_deleted[0];
+    vp_assert("request-is-in-exactly-one-place", places == 1);
+    vp_assert("nothing-else-became-current", h.m_currentRequest == nullptr || cur);
+    // (2) the place agrees with the completion callbacks
+    if (cur) vp_assert("current-request-not-completed-yet", cnt == 0);
+    if (inFin == 1) vp_assert("finished-queue-only-after-completion-of-a-waited-request", cnt >= 1 && !del0);
+    if (g_deleted[0] == 1) vp_assert("deleted-only-after-completion-of-a-self-deleting-request", cnt >= 1 && del0);
+    if (inNext == 1) vp_assert("queued-means-untouched-retried-or-restarted", cnt == 0 || (cnt == 1 && g_restart[0]));
+    // (3) exactly once: a second completion only for the new life of a restarted request when the signal is lost in the same step
+    bool drained = g_restart[0] && noSignal && cnt == 2 && g_notifyResult[0] == RESULT_ERR_NO_SIGNAL;
+    vp_assert("completed-at-most-once", cnt <= 1 || drained);
+    // (4) completion happens exactly when it is due
+    bool lostNow = wasArb && ((!fault && r.lost) || devError);   // other symbol echoed, or the device error cancelled the arbitration
+    bool retry = lostNow && retriesBefore < cfg.busLostRetries;
+    if (wasOwn && !r.done) vp_assert("request-in-flight-stays-current-and-untouched", cur && cnt == 0);
+    if (wasOwn && r.done) vp_assert("ended-exchange-completes-the-request", cnt >= 1 && !cur);
+    if (wasArb && !fault && !r.lost) vp_assert("won-request-becomes-current", cur && cnt == 0);
+    if (retry && !noSignal) vp_assert("bus-lost-retry-requeues-without-notification", cnt == 0 && inNext == 1 && req0->m_busLostRetries == retriesBefore + 1);
+    if (lostNow && !retry) {
+      vp_assert("lost-arbitration-completes-the-request", cnt >= 1);
+      if (cnt == 1) vp_assert("lost-arbitration-result", g_notifyResult[0] == RESULT_ERR_BUS_LOST);
     }
-    if (wasOwn && !r.done) {
-      vp_assert("request-in-flight-stays-current-and-untouched", cur && g_notifyCount[0] == 0 && g_deleted[0] == 0 && inNext == 0 && inFin == 0);
-    } else if (wasArb && !r.lost && !fault) {
-      vp_assert("won-request-becomes-current", cur && g_notifyCount[0] == 0 && g_deleted[0] == 0 && inNext == 0 && inFin == 0);
-    } else if (wasArb && fault && !r.lost) {
-      // read timeout while the echo is awaited: handled by a later step
-    } else if (retry) {
-      vp_assert("bus-lost-retry-requeues-without-notification", !cur && g_notifyCount[0] == 0 && g_deleted[0] == 0 && inNext == 1 && inFin == 0
-                && req0->m_busLostRetries == retriesBefore + 1);
-    } else if (wasOwn || (wasArb && r.lost)) {
-      bool drained = g_restart[0] && h.m_state == bs_noSignal && g_notifyCount[0] == 2 && g_notifyResult[0] == RESULT_ERR_NO_SIGNAL;
-      vp_assert("completed-exactly-once", g_notifyCount[0] == 1 || drained);
-      vp_assert("no-longer-current-after-completion", !cur && h.m_currentRequest == nullptr);
-      if (wasArb) vp_assert("lost-arbitration-result", g_notifyResult[0] == RESULT_ERR_BUS_LOST);
-      if (g_restart[0]) vp_assert("restart-requeues-once", g_deleted[0] == 0 && inNext == 1 && inFin == 0);
-      else if (del0) vp_assert("self-deleting-request-deleted-once-and-nowhere-queued", g_deleted[0] == 1 && inNext == 0 && inFin == 0);
+    if (wasArb && fault && !devError && !noSignal) vp_assert("timeout-while-awaiting-the-echo-leaves-the-request-queued", cnt == 0 && inNext == 1);
+    if (noSignal) vp_assert("no-signal-completes-every-request", cnt >= 1 && inNext == 0 && !cur);
+    if (wasEndSyn) vp_assert("closing-syn-touches-no-request", cnt == 0 && g_deleted[0] == 0);
+    if (cnt >= 1 && !(cnt == 1 && g_restart[0] && inNext == 1)) {
+      if (del0) vp_assert("self-deleting-request-deleted-once-and-nowhere-queued", g_deleted[0] == 1 && inNext == 0 && inFin == 0);
       else vp_assert("waited-request-handed-to-the-finished-queue-once", g_deleted[0] == 0 && inNext == 0 && inFin == 1);
     }
-    if (wasEndSyn) vp_assert("closing-syn-touches-no-request", g_notifyCount[0] == 0 && g_deleted[0] == 0);
     // bystanders
-    bool noSignal = h.m_state == bs_noSignal;
     if (haveOther && !noSignal) {
       vp_assert("queued-bystander-untouched", g_notifyCount[1] == 0 && g_deleted[1] == 0 && countIn(h.m_nextRequests, req1) == 1 && countIn(h.m_finishedRequests, req1) == 0 && h.m_currentRequest != req1);
     }
@@ -375,8 +402,15 @@ extern "C" void vp_main() {
     }
   }
 #if MODE == 0
+#if !defined(ARBCASE) || ARBCASE == 0
   if (r.own) vp_cover("arbitration-won");
+#endif
+#if !defined(ARBCASE) || ARBCASE == 1
   if (r.lost) vp_cover("arbitration-lost");
+#endif
+#if !defined(ARBCASE) || ARBCASE == 2
+  if (fault) vp_cover("nothing-read-while-the-echo-is-awaited");
+#endif
 #elif MODE == 2
   if (p.ph == P::QQ) vp_cover("closing-syn-echoed");
 #else
